@@ -159,8 +159,11 @@ namespace xsimd
         template <class A, class T, class /*=typename std::enable_if<std::is_integral<T>::value, void>::type*/>
         XSIMD_INLINE batch<T, A> mul(batch<T, A> const& self, batch<T, A> const& other, requires_arch<generic>) noexcept
         {
+            // multiply in an unsigned type at least as wide as int: the product of signed lanes must wrap around,
+            // while x * y on a signed T is undefined on overflow (and the optimiser uses that)
+            using U = typename std::conditional<(sizeof(T) < sizeof(unsigned)), unsigned, typename std::make_unsigned<T>::type>::type;
             return detail::apply([](T x, T y) noexcept -> T
-                                 { return x * y; },
+                                 { return static_cast<T>(static_cast<U>(x) * static_cast<U>(y)); },
                                  self, other);
         }
 
